@@ -237,8 +237,15 @@ class QuicPacketBuilder:
         else:
             header_size = 3 + len(self._peer_cid)
 
-        # check we have enough space
-        if packet_start + header_size >= self._buffer_capacity:
+        # check we have enough space for the smallest packet we can build: the
+        # payload is padded so that header protection has enough to sample
+        min_packet_size = (
+            header_size
+            + PACKET_NUMBER_MAX_SIZE
+            - PACKET_NUMBER_SEND_SIZE
+            + crypto.aead_tag_size
+        )
+        if packet_start + min_packet_size > self._buffer_capacity:
             raise QuicPacketBuilderStop
 
         # determine ack epoch
